@@ -147,6 +147,18 @@ func runConc(tier string, seed int64) int {
 		vs := g.words(5, false)
 		share(id+".joinvals", func() interface{} { return vs })
 		add(id+".Join", func() string { return showU64s(bitmap.Join(vs, 16)) })
+		add(id+".Fmt", func() string { return bitmap.Fmt(vs) + bitmap.Fmt(ws[0]) + bitmap.Fmt(int32(len(ws))) })
+		ps := bitmap.ToArray(ws)
+		if len(ps) > 40 {
+			ps = ps[:40]
+		}
+		sizes := []int32{int32(L), 64, 7}
+		subs := [][]int32{ps, {0, 63}, {}}
+		share(id+".positions", func() interface{} { return ps })
+		share(id+".subs", func() interface{} { return subs })
+		share(id+".sizes", func() interface{} { return sizes })
+		add(id+".Of", func() string { return showU64s(bitmap.Of(ps)) + showU64s(bitmap.Of(ps, int32(L+70))) })
+		add(id+".OfMany", func() string { return showU64s(bitmap.OfMany(subs, sizes)) })
 	}
 
 	// strings / keys
@@ -216,6 +228,10 @@ func runConc(tier string, seed int64) int {
 			hh := int32(g.intn(31))
 			idx := int32(g.r.Int63n(int64(1)<<uint(hh+1) - 1))
 			add(id+".IndexToPath", func() string { return fmt.Sprint(bmtree.IndexToPath(hh, idx), bmtree.PathStr(p), bmtree.PathLen(p)) })
+			add(id+".PathAccessors", func() string {
+				return fmt.Sprint(bmtree.PathHeight(p), bmtree.PathBits(p), bmtree.PathMask(p), bmtree.Height(t), bmtree.NewPath(pfx<<uint(h-l), int32(l), int32(h)),
+					bmtree.PathOf("\xa5\x5a\xff\x00\x81", int32(l), int32(h)))
+			})
 		}
 	}
 
